@@ -144,6 +144,23 @@ Theorem c05_pinned_refuted_rtsp_boundary :
 Proof. cbv zeta. split; vm_compute; reflexivity. Qed.
 Print Assumptions c05_pinned_refuted_rtsp_boundary.
 
+(* metadata: the broadcast path reads two onMetaData fields (audiocodecid, audiosamplerate: Rtmp2RtspRemuxer) by a Go type
+   assertion on the AMF value, a sum type (number | boolean | string | pair list; null / undefined / absent = nil).
+   With the comma-ok form lal uses, no value type panics, and the metadata branch returns for EVERY payload; the
+   unchecked form `v.(float64)` panics for every summand but the number (string "44100": the witness) *)
+Theorem c05_metadata_any_value_type :
+  (forall v, exists r, assert_f64 true v = Ok r) /\
+  (forall acfg s payload, exists s', rtsp_meta acfg s payload = Ok s') /\
+  rtsp_meta_gen false RtmpAmf0.cfg_fixed rtsp_init
+    ([2; 0; 10; 111; 110; 77; 101; 116; 97; 68; 97; 116; 97; 3; 0; 15] ++ k_audiosamplerate ++ [2; 0; 5; 52; 52; 49; 48; 48; 0; 0; 9])
+  = Panic s_meta_assert.
+Proof.
+  split; [exact assert_f64_ok|]. split.
+  - intros acfg s payload. destruct (rtsp_meta_ok acfg s payload) as [s' [H _]]. exists s'. exact H.
+  - vm_compute. reflexivity.
+Qed.
+Print Assumptions c05_metadata_any_value_type.
+
 (* RtspRemuxerAddSpsPps2KeyFrameFlag = true (never set by lalserver): a 6-byte key frame is sliced at [9:] *)
 Theorem c05_add_flag_refuted :
   snd (m_grun fixes_all (mk_gcfg true true true true true true None true true)
